@@ -34,7 +34,8 @@
 ** part=containers Array, List, heap and stack Tuple, and an Array and a List built through another history,
 **                holding the same 0..3 elements (every sequence over 3 values of the domain): eq in both
 **                directions => same hash, across kinds and histories; copy(container); List := Array and
-**                Array := List (non-empty targets) are eq to the source and hash like it.
+**                Array := List (non-empty targets) are eq to the source and hash like it.  Tuples referencing
+**                one object at several positions (heap, stack) as LEFT operand of eq against all of them.
 ** part=recycled  (dom recycled) run-time record types without instances created, used, deleted and re-created
 **                with another size - normally at the same address; the first operation on the new type is
 **                hash / assign / swap / copy in turn (see vf_cmp.h).
@@ -654,6 +655,32 @@ static void container_case(const int* e, var* E, const int* code, int SL) {
     if (!e1 || !e2) vf_violation(L(H.name, cls, "same-elements-not-eq"), NULL, "a %s and a %s holding the same %d elements: eq = %d / %d", cont_name[a], cont_name[b], SL, (int)e1, (int)e2);
     else if (hc[a] != hc[b]) vf_violation(L(H.name, cls, "eq-but-hash-differs"), NULL, "a %s and a %s holding the same %d elements are eq but hash to %016" PRIx64 " and %016" PRIx64, cont_name[a], cont_name[b], SL, hc[a], hc[b]);
     if (SL > 0) vf.nontrivial++;
+  }
+  /* Tuples that reference ONE object at every position of equal value (heap and stack).  Tuple_Cmp / Tuple_Hash walk
+  ** by index, so as the LEFT operand of eq they are in contract (iterating them - the right operand - is known finding D16):
+  ** eq(shared, x) must hold for every container x of distinct objects above, and then the hashes must be equal */
+  int repeats = 0;
+  for (int k = 0; k < SL; k++) for (int q = 0; q < k; q++) if (code[k] == code[q]) repeats = 1;
+  if (repeats) {
+    var sh[2]; var sitems[4] = { Terminal, Terminal, Terminal, Terminal };
+    sh[0] = new_raw(Tuple); for (int k = 0; k < SL; k++) { push(sh[0], E[code[k]]); sitems[k] = E[code[k]]; }
+    sh[1] = $(Tuple, sitems);
+    for (int w = 0; w < 2; w++) {
+      uint64_t hs = hash(sh[w]);
+      vf.evaluations++;
+      if (len(sh[w]) != (size_t)SL) vf_violation(L(H.name, w ? "shared-object-stack-tuple" : "shared-object-tuple", "len"), NULL, "len = %zu, %d elements", len(sh[w]), SL);
+      for (int b = 0; b < NCONT; b++) {
+        char cls[64]; snprintf(cls, sizeof cls, "%s-vs-%s", w ? "shared-object-stack-tuple" : "shared-object-tuple", cont_name[b]);
+        volatile bool e1 = false;
+        var ex = VF_CATCH(e1 = eq(sh[w], C[b]));
+        vf.evaluations += 2;
+        if (ex) { vf_violation(L(H.name, cls, "eq-raises"), NULL, "eq raised %s", vf_exc_name(ex)); continue; }
+        if (!e1) vf_violation(L(H.name, cls, "same-elements-not-eq"), NULL, "eq(tuple referencing one object at several positions, %s of the same %d values) is false", cont_name[b], SL);
+        else if (hs != hc[b]) vf_violation(L(H.name, cls, "eq-but-hash-differs"), NULL, "eq but hash %016" PRIx64 " vs %016" PRIx64, hs, hc[b]);
+        vf.nontrivial++;
+      }
+    }
+    del_raw(sh[0]);
   }
   /* copy of each heap container */
   for (int a = 0; a < 3; a++) {
